@@ -279,16 +279,31 @@ where
     }
 
     fn position(&self) -> Position {
-        Position {
-            line: self.iter.line(),
-            column: self.iter.col(),
+        // The LineColIterator has already counted a byte that was peeked but
+        // not yet consumed; take it out again.
+        match self.ch {
+            Some(b'\n') => Position {
+                line: self.iter.line() - 1,
+                column: self.iter.prev_col(),
+            },
+            Some(_) => Position {
+                line: self.iter.line(),
+                column: self.iter.col() - 1,
+            },
+            None => Position {
+                line: self.iter.line(),
+                column: self.iter.col(),
+            },
         }
     }
 
     fn peek_position(&self) -> Position {
         // The LineColIterator updates its position during peek() so it has the
         // right one here.
-        self.position()
+        Position {
+            line: self.iter.line(),
+            column: self.iter.col(),
+        }
     }
 
     fn byte_offset(&self) -> usize {
